@@ -51,9 +51,9 @@ Proof.
     rewrite num_fmt6 by lia. reflexivity.
 Qed.
 
-Lemma iso_parse_shape y mo d h mi s rest :
+Lemma iso_parse_shape_eq y mo d h mi s rest :
   0 <= y < 10000 -> 0 <= mo < 100 -> 0 <= d < 100 -> 0 <= h < 100 -> 0 <= mi < 100 -> 0 <= s < 100 ->
-  iso_parse (fmt4 y ++ [c_dash] ++ fmt2 mo ++ [c_dash] ++ fmt2 d ++ [c_T] ++ fmt2 h ++ [c_colon] ++ fmt2 mi ++ [c_colon] ++ fmt2 s ++ rest) =
+  iso_parse_shape (fmt4 y ++ [c_dash] ++ fmt2 mo ++ [c_dash] ++ fmt2 d ++ [c_T] ++ fmt2 h ++ [c_colon] ++ fmt2 mi ++ [c_colon] ++ fmt2 s ++ rest) =
   match parse_frac rest with
   | Some (us, rest') =>
       match parse_tz rest' with
@@ -67,7 +67,7 @@ Proof.
   intros Hy Hmo Hd Hh Hmi Hs.
   pose proof (num_fmt4 y Hy) as E1. pose proof (num_fmt2 mo Hmo) as E2. pose proof (num_fmt2 d Hd) as E3.
   pose proof (num_fmt2 h Hh) as E4. pose proof (num_fmt2 mi Hmi) as E5. pose proof (num_fmt2 s Hs) as E6.
-  unfold fmt4, fmt2 in *. unfold iso_parse, c_dash, c_T, c_colon. cbn [app].
+  unfold fmt4, fmt2 in *. unfold iso_parse_shape, c_dash, c_T, c_colon. cbn [app].
   cbn [N.eqb Pos.eqb orb]. rewrite E1, E2, E3, E4, E5, E6. reflexivity.
 Qed.
 
@@ -110,8 +110,8 @@ Proof.
 Qed.
 
 (* the round trip *)
-Theorem iso_roundtrip d : in_range (wall d) = true -> iso_offset_ok d = true ->
-  exists z, iso_parse (iso_format d) = Ok (mkDt (wall d) (Some z)) /\
+Theorem iso_roundtrip_shape d : in_range (wall d) = true -> iso_offset_ok d = true ->
+  exists z, iso_parse_shape (iso_format d) = Ok (mkDt (wall d) (Some z)) /\
             tz_off z = match tz d with None => 0 | Some t => tz_off t end.
 Proof.
   intros R Ho. destruct (dt_fields_valid d R) as [V E].
@@ -122,7 +122,7 @@ Proof.
       repeat match goal with |- context [if ?c then _ else _] => destruct c end; lia. }
   unfold MAXYEAR in Vy.
   unfold iso_format. cbv zeta.
-  rewrite iso_parse_shape by lia.
+  rewrite iso_parse_shape_eq by lia.
   unfold iso_offset_ok in Ho. destruct (tz d) as [t|].
   - rewrite (parse_frac_iso _ _ Vu (tail_ok_offset (tz_off t))).
     replace (mkF _ _ _ _ _ _ _) with (dt_fields d) by (destruct (dt_fields d); reflexivity).
@@ -131,6 +131,14 @@ Proof.
   - rewrite (parse_frac_iso _ [] Vu (or_introl eq_refl)).
     replace (mkF _ _ _ _ _ _ _) with (dt_fields d) by (destruct (dt_fields d); reflexivity).
     unfold mk_datetime. rewrite V, E. cbn [naive wall parse_tz]. eexists. split; reflexivity.
+Qed.
+
+Theorem iso_roundtrip d : in_range (wall d) = true -> iso_offset_ok d = true ->
+  exists z, iso_parse (iso_format d) = Ok (mkDt (wall d) (Some z)) /\
+            tz_off z = match tz d with None => 0 | Some t => tz_off t end.
+Proof.
+  intros R Ho. destruct (iso_roundtrip_shape d R Ho) as (z & E & Ez). exists z. split; [|exact Ez].
+  unfold iso_parse. rewrite E. reflexivity.
 Qed.
 
 (* read back through normalize_time, the parsed text denotes the instant of the original
